@@ -1,0 +1,161 @@
+//! Verification hooks, compiled only with `--cfg kmertools_verif`.
+//!
+//! Nothing in here changes behaviour while no handler is installed: every
+//! hook is a no-op and the shim types forward to the std types they wrap.
+//! A verification harness installs a [`Handler`] to observe (and schedule)
+//! the worker loops of the other crates.
+use std::sync::{Arc, RwLock};
+
+pub trait Handler: Send + Sync {
+    /// a worker reached a named scheduling point
+    fn point(&self, site: &'static str, arg: u64);
+    /// a scope that will spawn `tasks` workers on `threads` pool threads is about to start
+    fn scope_begin(&self, site: &'static str, tasks: usize, threads: usize);
+    /// the mapped writer is about to copy `len` items to offset `pos` of a mapping of `cap` items
+    fn log_write(&self, pos: usize, len: usize, cap: usize);
+    /// the calling worker found shim mutex `mutex` taken; return when it may try again
+    fn blocked(&self, mutex: usize);
+    /// shim mutex `mutex` has just been released
+    fn released(&self, mutex: usize);
+}
+
+static HANDLER: RwLock<Option<Arc<dyn Handler>>> = RwLock::new(None);
+
+pub fn set_handler(handler: Option<Arc<dyn Handler>>) {
+    *HANDLER.write().unwrap_or_else(|e| e.into_inner()) = handler;
+}
+
+fn handler() -> Option<Arc<dyn Handler>> {
+    HANDLER.read().unwrap_or_else(|e| e.into_inner()).clone()
+}
+
+pub fn point(site: &'static str, arg: u64) {
+    if let Some(h) = handler() {
+        h.point(site, arg);
+    }
+}
+
+pub fn scope_begin(site: &'static str, tasks: usize, threads: usize) {
+    if let Some(h) = handler() {
+        h.scope_begin(site, tasks, threads);
+    }
+}
+
+pub fn log_write(pos: usize, len: usize, cap: usize) {
+    if let Some(h) = handler() {
+        h.log_write(pos, len, cap);
+    }
+}
+
+/// Drop-in wrappers of the std primitives used by the worker loops. Each
+/// operation is announced as a scheduling point before it is performed on the
+/// real primitive.
+pub mod sync {
+    use super::handler;
+    use std::ops::{Deref, DerefMut};
+    use std::sync::atomic::Ordering;
+    use std::sync::{LockResult, PoisonError, TryLockError};
+
+    pub struct Mutex<T> {
+        inner: std::sync::Mutex<T>,
+    }
+
+    pub struct MutexGuard<'a, T> {
+        guard: Option<std::sync::MutexGuard<'a, T>>,
+        id: usize,
+    }
+
+    impl<T> Mutex<T> {
+        pub fn new(value: T) -> Self {
+            Self {
+                inner: std::sync::Mutex::new(value),
+            }
+        }
+
+        pub fn lock(&self) -> LockResult<MutexGuard<'_, T>> {
+            let id = self as *const Self as usize;
+            let h = match handler() {
+                Some(h) => h,
+                None => {
+                    return match self.inner.lock() {
+                        Ok(guard) => Ok(MutexGuard {
+                            guard: Some(guard),
+                            id,
+                        }),
+                        Err(e) => Err(PoisonError::new(MutexGuard {
+                            guard: Some(e.into_inner()),
+                            id,
+                        })),
+                    }
+                }
+            };
+            h.point("mutex.lock", 0);
+            loop {
+                match self.inner.try_lock() {
+                    Ok(guard) => {
+                        return Ok(MutexGuard {
+                            guard: Some(guard),
+                            id,
+                        })
+                    }
+                    Err(TryLockError::Poisoned(e)) => {
+                        return Err(PoisonError::new(MutexGuard {
+                            guard: Some(e.into_inner()),
+                            id,
+                        }))
+                    }
+                    Err(TryLockError::WouldBlock) => h.blocked(id),
+                }
+            }
+        }
+    }
+
+    impl<T> Deref for MutexGuard<'_, T> {
+        type Target = T;
+        fn deref(&self) -> &T {
+            self.guard.as_ref().unwrap()
+        }
+    }
+
+    impl<T> DerefMut for MutexGuard<'_, T> {
+        fn deref_mut(&mut self) -> &mut T {
+            self.guard.as_mut().unwrap()
+        }
+    }
+
+    impl<T> Drop for MutexGuard<'_, T> {
+        fn drop(&mut self) {
+            drop(self.guard.take());
+            if let Some(h) = handler() {
+                h.released(self.id);
+            }
+        }
+    }
+
+    pub struct AtomicU64 {
+        inner: std::sync::atomic::AtomicU64,
+    }
+
+    impl AtomicU64 {
+        pub fn new(value: u64) -> Self {
+            Self {
+                inner: std::sync::atomic::AtomicU64::new(value),
+            }
+        }
+
+        pub fn load(&self, order: Ordering) -> u64 {
+            super::point("atomic.load", 0);
+            self.inner.load(order)
+        }
+
+        pub fn store(&self, value: u64, order: Ordering) {
+            super::point("atomic.store", 0);
+            self.inner.store(value, order)
+        }
+
+        pub fn fetch_add(&self, value: u64, order: Ordering) -> u64 {
+            super::point("atomic.fetch_add", 0);
+            self.inner.fetch_add(value, order)
+        }
+    }
+}
